@@ -305,6 +305,11 @@ struct TwoPointElem : Elem {
         else if (kind == 1) { double v = ~(k.stationVel(s, b2, s2) - k.stationVel(s, b1, s1)) * d; on1 = cc * v * d; R.diss = cc * v * v; R.peScale = 1e-300; }   // opposes separation
         else { on1 = -ff * d; R.peScale = 1e-300; }                                          // positive force separates the points
         k.addPointForce(R, s, b1, s1, on1); k.addPointForce(R, s, b2, s2, -on1);
+        // floor from the magnitudes before cancellation (same body twice: stretch rate is exactly 0 analytically,
+        // rounding noise numerically)
+        double lever = 1 + (p1 - k.mob(b1).getBodyTransform(s).p()).norm() + (p2 - k.mob(b2).getBodyTransform(s).p()).norm();
+        if (kind == 0) R.scale += kk * (x + x0) * lever;
+        else if (kind == 1) R.scale += cc * (k.stationVel(s, b1, s1).norm() + k.stationVel(s, b2, s2).norm()) * lever;
         R.scale += 1e-300;
     }
     Json describe() override { return Json::obj().set("b1", b1).set("b2", b2).set("s1", jV3(s1)).set("s2", jV3(s2)).set("k", kk).set("x0", x0).set("c", cc).set("f", ff); }
@@ -436,7 +441,8 @@ struct StopElem : Elem {
         if (q > hi) { x = q - hi; f = std::min(0.0, -kk * x * (1 + dd * qd)); }
         else if (q < lo) { x = q - lo; f = std::max(0.0, -kk * x * (1 - dd * qd)); }
         R.f[ux] = f; R.pe = 0.5 * kk * x * x;
-        R.scale = kk * std::fabs(x) * (1 + dd * std::fabs(qd)) + 1e-300; R.aF = R.scale; R.peScale = R.pe + 1e-300;
+        double bound = q > hi ? hi : q < lo ? lo : 0.0, pre = (x != 0) ? std::fabs(q) + std::fabs(bound) : 0.0;   // magnitudes before cancellation
+        R.scale = kk * (std::fabs(x) + pre) * (1 + dd * std::fabs(qd)) + 1e-300; R.aF = R.scale; R.peScale = R.pe + kk * std::fabs(x) * pre + 1e-300;
     }
     int numOps() override { return 2; }
     std::string applyOp(int op, FCase& k, State& s, Rng& r) override {
@@ -520,7 +526,11 @@ struct BushingElem : Elem {
         R.F[b2] += SpatialVec(mG + (pM - X2.p()) % fG, fG);
         R.F[b1] -= SpatialVec(mG + (pM - X1.p()) % fG, fG);
         double lever = (pM - X2.p()).norm() + (pM - X1.p()).norm() + K.p.norm();
-        R.scale = mG.norm() + fG.norm() * (1 + lever) + 1e-300; R.aF = 2 * fG.norm(); R.aM = 2 * (mG.norm() + pM.norm() * fG.norm());
+        // floor: q and qdot are differences of O(len), O(vel) quantities (cancelling exactly for same-body attachments)
+        double len = 1 + K.X_GF.p().norm() + K.X_GM.p().norm(), vel = 1 + (spMax(k.mob(b1).getBodyVelocity(s)) + spMax(k.mob(b2).getBodyVelocity(s))) * len;
+        double ks = 0, cs = 0; for (int i = 0; i < 6; ++i) { ks += kk[i]; cs += cc[i]; }
+        R.scale = mG.norm() + fG.norm() * (1 + lever) + (ks * len + cs * vel) * (1 + lever) + 1e-300; R.aF = 2 * fG.norm(); R.aM = 2 * (mG.norm() + pM.norm() * fG.norm());
+        R.peScale += ks * len * std::sqrt(2 * R.pe / (ks + 1e-300)) + 1e-6 * ks * len * len;
     }
     double reportedDissipation(FCase&, const State& s) override { return bu.getPowerDissipation(s); }
     int numOps() override { return 4; }
